@@ -323,10 +323,23 @@ def _cyclic(rf):
     return any(state.get(k, 0) == 0 and visit(k) for k in rf)
 
 
+def _dict_refs(g):
+    """Does some dict argument of the graph mention a key?"""
+    def walk(a, inside):
+        if a["t"] == "ref":
+            return inside
+        return any(walk(x, inside or a["t"] == "dict") for x in a.get("xs", []))
+    return any(walk(a, False) for n in g.values() for a in n["args"])
+
+
 def classify(item, clauses, o=None):
     """Signature = call site (operation, graph form) + first broken clause + the parameter that selects
     the code path (renamer for fusion); no concrete numbers."""
     first = [c for c in CLAUSE_ORDER if c in clauses] or list(clauses)
+    if item["op"] in ("inline", "inline_functions", "fuse_linear", "fuse") and item["form"] in ("legacy", "mixed") \
+            and first[0] != "Raised" and _dict_refs(item["g"]):
+        # one input class: the substitution these operations are built on meets a dict argument that mentions a key
+        return "legacy-substitution:dict-argument-references-key"
     if first[0] == "Raised" and o is not None:
         sig = "%s:Raised:%s" % (item["op"], o.get("raised", ""))
         if item["op"] == "fuse" and item["p"].get("ave_width") == "inf" and o.get("raised") == "OverflowError":
@@ -670,6 +683,7 @@ def _mini_cases():
         {"k1": T("f1"), "k2": {"kind": "alias", "f": "", "args": [R("k1")]}, "k3": T("f3", R("k2"), R("k2")),
          "k4": {"kind": "alias", "f": "", "args": [R("k3")]}},
         {"k1": T("f1"), "k2": T("f2", R("k1")), "k3": T("f3", R("k1")), "k4": T("f4", R("k2"), R("k3")), "k5": T("f5", R("k4"))},
+        {"k1": T("f1"), "k2": T("f2", {"t": "dict", "ks": ["p", "q"], "xs": [R("k1"), L(2)]}), "k3": T("f3", R("k2"), {"t": "list", "xs": [R("k1")]})},
     ]
     cases = []
     for g in graphs:
@@ -715,6 +729,8 @@ def selftest(ctx):
     mutants = [
         ("cull: dependencies of dependencies are not followed (work = new_work dropped)", opt, "cull",
          "        work = new_work\n", "        work = []\n", (), {"cull"}),
+        ("keys_in_tasks: walks the keys of a dict argument instead of its values", dask.core, "keys_in_tasks",
+         "work.extend(w.values())", "work.extend(w)", (), {"cull", "inline"}),
         ("subs: substitution does not descend into list arguments", dask.core, "subs",
          "        elif type_arg is list:\n            arg = [subs(x, key, val) for x in arg]\n", "", [(opt, "subs")],
          {"inline", "inline_functions", "fuse", "fuse_linear"}),
